@@ -1336,6 +1336,16 @@ func (s *TxStore) RemoveRelevantTx(tx mwdb.DBTransaction, addrmgr *keystore.Addr
 			return nil, false, err
 		}
 		if removable {
+			// The debits of the wallet being removed are gone by now. A debit that is
+			// left belongs to another wallet whose coin this transaction spends: the
+			// record is still needed to undo that spend if the block is disconnected.
+			left, err := tx.FetchBucket(s.bucketMeta.nsDebits).GetByPrefix(item.Key)
+			if err != nil {
+				return nil, false, err
+			}
+			removable = len(left) == 0
+		}
+		if removable {
 			err = nsTxRecords.Delete(item.Key)
 			if err != nil {
 				return nil, false, err
